@@ -16,6 +16,7 @@ import (
 	"crypto/sha256"
 	"errors"
 	"fmt"
+	"github.com/taurusgroup/multi-party-sig/pkg/hash"
 	"sort"
 
 	"github.com/taurusgroup/multi-party-sig/internal/round"
@@ -166,6 +167,20 @@ func (r *RndP) StoreMessage(msg round.Message) error {
 }
 
 func (r *RndP) Finalize(out chan<- *round.Message) (round.Session, error) {
+	// a round that received 'U' broadcasts folds them into the session's hash state when it is left - as the CMP
+	// key generation does with the rid: whatever the handler derives from the session hash for THIS round
+	// (the echo of its broadcasts) must have been derived before
+	if r.kind() == 'U' {
+		vp := [][]byte{[]byte("U"), {byte(r.k)}}
+		for _, id := range r.PartyIDs() {
+			b := r.recvB[id]
+			if id == r.SelfID() {
+				b = r.myB
+			}
+			vp = append(vp, []byte(id), b)
+		}
+		r.UpdateHashState(&hash.BytesWithDomain{TheDomain: "vproto U view", Bytes: H(vp...)})
+	}
 	// fold what this round received
 	parts := [][]byte{[]byte("acc"), r.acc, {byte(r.k)}}
 	vparts := [][]byte{[]byte("view"), r.view, {byte(r.k)}}
@@ -190,7 +205,7 @@ func (r *RndP) Finalize(out chan<- *round.Message) (round.Session, error) {
 	kind := r.spec[r.k-1]
 	self := []byte(r.SelfID())
 	switch kind {
-	case 'B', 'X', 'N', 'Y':
+	case 'B', 'X', 'N', 'Y', 'U':
 		next.myB = H([]byte("bc"), self, []byte{byte(nr)}, acc)
 		var bc round.BroadcastContent = &BMsg{Nr: nr, Payload: next.myB}
 		if kind == 'N' || kind == 'Y' {
@@ -219,7 +234,7 @@ func (r *RndP) Finalize(out chan<- *round.Message) (round.Session, error) {
 	default:
 		return r, fmt.Errorf("vproto: bad spec letter %q", kind)
 	}
-	if kind == 'B' || kind == 'X' || kind == 'N' || kind == 'Y' {
+	if kind == 'B' || kind == 'X' || kind == 'N' || kind == 'Y' || kind == 'U' {
 		return &RndB{RndP{next}}, nil
 	}
 	return &RndP{next}, nil
